@@ -2037,3 +2037,57 @@ def h_e_stdin_tools(tool_i: int, ai: int, ti: int) -> bool:
     post: _
     """
     return untraced(_stdin_tools, pick(tool_i, 0, 1), pick(ai, 0, 9), pick(ti, 0, 12))
+
+
+POSTPARSE = [['cpls', 2, 3, 4], ['randkcnf', 3, 2, 1], ['tseitin', 4, 5], ['stone', 2, 'path', 3, '--sparse', 3], ['pitfall', 3, 1, 2, 2, 2],
+             ['ec', 'complete', 4], ['randkxor', 3, 2, 1], ['op', 3, 3], ['php', 2, 2, '-T', 'xorcomp', 5, 6], ['subsetcard', 3, 5]]
+FORMATS = [([], None), (['-of', 'opb'], '*'), (['-of', 'latex'], '%'), (['-of', 'dimacs'], 'c'), (['-o', 'OUT.opb'], '*'), (['-o', 'OUT.tex'], '%'),
+           (['-o', 'OUT.cnf'], 'c'), (['-l'], '%')]
+
+
+def _postparse(tool_i, ci, fi):
+    """errors found AFTER the command line has been parsed (the generator refuses the parameters) carry the comment
+    marker of the output format in effect, also when that format was chosen through the extension of -o"""
+    import builtins
+    tool = ['cnfgen', 'pbgen'][tool_i]
+    cmd = POSTPARSE[ci]
+    opts, marker = FORMATS[fi]
+    if tool == 'pbgen' and ('-T' in cmd or 'dimacs' in opts or 'OUT.cnf' in opts):
+        return True
+    if marker is None:
+        marker = 'c' if tool == 'cnfgen' else '*'
+    if tool == 'pbgen' and '-o' in opts:
+        marker = '*'        # pbgen documents "-of (default: opb)": the extension of -o does not select the format
+    written = {}
+    real_open = builtins.open
+
+    def fake_open(name, mode='r', *a, **k):
+        if isinstance(name, str) and name.startswith('OUT.'):
+            f = _Out()
+            f.name = name
+            written[name] = f
+            return f
+        return real_open(name, mode, *a, **k)
+    builtins.open = fake_open
+    try:
+        code, out, err = run_main(tool, opts + cmd)
+    finally:
+        builtins.open = real_open
+    if code == 0:
+        return False                       # these requests cannot be met
+    if out != '' or any(f.getvalue() != '' for f in written.values()):
+        return False
+    lines = [l for l in err.split('\n')]
+    if lines and lines[-1] == '':
+        lines = lines[:-1]
+    if not lines:
+        return False
+    return all(l[:1] == marker for l in lines)
+
+
+def h_e_postparse(tool_i: int, ci: int, fi: int) -> bool:
+    """
+    pre: 0 <= tool_i <= 1 and 0 <= ci <= 9 and 0 <= fi <= 7
+    post: _
+    """
+    return untraced(_postparse, pick(tool_i, 0, 1), pick(ci, 0, 9), pick(fi, 0, 7))
